@@ -997,14 +997,15 @@ def pad(tensor, padding, value=0.0):
                 tn.eye(pad[1], device=cores[k].device, dtype=cores[k].dtype)
             value = 1
     else:
-        rprod = np.prod(tensor.R)
-        value = value/rprod
-
-        cores = [c.clone() for c in tensor.cores]
-        for pad, k in zip(reversed(padding), reversed(range(len(tensor.N)))):
-            cores[k] = tnf.pad(
-                cores[k], (0, 0, pad[0], pad[1], 0, 0), value=value)
-            value = 1 if value != 0 else 0
+        padding = ((0, 0),)*(len(tensor.N)-len(padding)) + tuple(padding)
+        cores = [tnf.pad(c, (0, 0, pad[0], pad[1], 0, 0), value=0)
+                 for c, pad in zip(tensor.cores, padding)]
+        if value != 0:
+            # constant fill outside the original block: value * (ones - indicator of the block), two rank-one terms
+            ones = [tn.ones_like(c[:1, :, :1]) for c in cores]
+            block = [tnf.pad(tn.ones_like(c[:1, :, :1]), (0, 0, pad[0], pad[1], 0, 0), value=0)
+                     for c, pad in zip(tensor.cores, padding)]
+            return torchtt._tt_base.TT(cores) + value*(torchtt._tt_base.TT(ones) - torchtt._tt_base.TT(block))
 
     return torchtt._tt_base.TT(cores)
 
